@@ -186,6 +186,8 @@ class Slice(object):
                 raise lena.core.LenaValueError(
                     "step must be a natural number (integer >= 1)"
                 )
+            # islice accepts only integers (2.0 passes the check above)
+            step = int(step)
             if step != 1:
                 # non-trivial step is computed here.
                 self.run = lambda flow: islice(self._run_negative_islice(flow),
